@@ -5,6 +5,30 @@ HERE = os.path.dirname(os.path.dirname(os.path.abspath(__file__)))
 
 # id -> (technique, level text, level_note, design_ref)
 CHECKS = {
+ "C01": ("explicit-state BFS over substitution states, lock-step Robinson unifier (E1)",
+         "All states reachable by <= L successful unifications over every ordered pair of a ~110-term universe (variables, literals, proper/improper lists, five compound kinds, nests); every transition of the real State::unify / unify_rec is compared with a reference unifier (success iff unifiable, sides identical, mgu up to renaming, no cyclic binding, extension = new bindings, pre-state untouched); level-1 pairs also through the public query iterator.",
+         "Term universe and depth L=2 (quick) / 3 (thorough) as reported in the evidence; reference = Robinson unification on a plain AST.",
+         "4/C01"),
+ "C02": ("explicit-state BFS over constraint states + deviation-bounded schedule exploration + bounded-exhaustive programs (E1 x E2, E3)",
+         "Every state reachable by <= L postings of `t1 == t2` / `t1 != t2` over the term alphabet is compared, on every transition, with the order-free set of posted goals by tabulating ground instances over a finite universe; every distinct state's history is re-run as a public query under every hash-order schedule with <= d deviations; programs with conde and hidden fresh variables are compared with reference paths.",
+         "Finite universe (constants, fresh atoms, short lists): can miss but never invent a difference; L=2,d=1 quick / L=3,d=2 thorough.",
+         "4/C02"),
+ "C05": ("exhaustive engine exploration with scripted leaf goals, ordered reference interpreter (E4)",
+         "Every goal-tree shape up to the leaf bound over DFSConj/cond/DFSDisj/fresh/closure with scripted leaves (answer / lazy-step scripts in three stream encodings), DFS-typed at top level, under dfs{} in a BFS parent and as a conjunct: the answer sequence equals the reference depth-first interpreter's position by position.",
+         "Leaf bound 3 (quick) / 4 (thorough); scripts up to length 3; leaves are harness goals built from the public Stream constructors.",
+         "4/C05"),
+ "C06": ("exhaustive engine exploration with scripted leaf goals + per-step stream invariant (E4)",
+         "Same tree space in BFS typing: multiset of answers equals the reference and the depth-first run; at every single engine step emitted + drain(clone(stream)) equals the final multiset; for infinite producers/divergers and loop{} prefixes every answer of a bounded prefix is derivable and unrepeated.",
+         "Leaf bound 3/4; infinite streams judged on a bounded prefix only.",
+         "4/C06"),
+ "C07": ("exhaustive engine exploration, bounded liveness under a step budget (E4 + hook H2)",
+         "All disjunctions of 2-3 branches drawn from finite / infinitely producing / silently diverging scripted goals, in conde, binary Disj, nested conde and loop{} form and five positions: every answer a branch gives alone after s steps appears in the whole program within 64*2^(k*depth)*(s+1) engine steps.",
+         "Fairness as bounded liveness; the step bound is part of the claim.",
+         "4/C07"),
+ "C08": ("exhaustive engine exploration of clause lists, committed-choice reference with engine-order differential (E4)",
+         "All conda/condu clause lists of 1-3 clauses and onceo bodies whose heads/rests are scripted (0/1/many answers, lazily produced, infinite, diverging) are compared with the soft-cut / committed-choice semantics; the head's first answer in engine order is obtained from the engine by running the head alone.",
+         "Heads are leaves or two-leaf conde/conj/disj trees; matcha/matchu share Conda/Condu::from_conjunctions (their surface form is covered by C13).",
+         "4/C08"),
  "C18": ("explicit-state BFS over FiniteDomain representations, lock-step BTreeSet model (E1)",
          "Every representation reachable from all intervals / From<Vec> inputs / sparse sets of a small window (and of windows at the isize extremes) under all operations and all window predicates is compared with a BTreeSet model on every transition and every observer; exhaustive within the window.",
          "Model is BTreeSet<i64>; window width 7 (quick) / 9 (thorough); full-width interval only through O(1) operations.",
